@@ -6,6 +6,7 @@ From Annet Require Import Base.Str Model.Pattern Spec.P_C07 Proofs.RegexProofs P
 From Annet Require Import Model.PatternX Spec.P_C07X Proofs.PatternXProofs.
 From Annet Require Import Model.PatternT Spec.P_C07T Proofs.PatternTProofs.
 From Annet Require Import Model.PatternY Spec.P_C07Y Proofs.PatternYProofs.
+From Annet Require Import Proofs.PatternYReverse Proofs.PatternYParse.
 Import ListNotations.
 Open Scope string_scope.
 
@@ -580,15 +581,36 @@ Theorem C07Y_holds_partial :
 Proof. exact P_C07Y_match_model. Qed.
 Print Assumptions C07Y_holds_partial.
 
-(* NOT proved (correspondence-tested only, on every shipped line of the second extension):
-   the removal-command half of P_C07Y for the new forms, i.e. that the text-level
-   _make_reverse(print_ypat p, prefix).format(key) equals the token-level reading yref_reverse.
-   Missing: the per-token lemmas of Proofs/PatternXProofs.v (tilde_to_hole / sub_star /
-   strip_tilde / format) for YGlue and the special last words.  For patterns of PatternX
-   it is C07X_reverse. *)
-Definition C07Y_reverse_statement : Prop :=
+(* the removal-command half for the new forms: the text-level
+   _make_reverse(print_ypat p, prefix).format( *key ) equals the token-level reading yref_reverse
+   of Spec/P_C07Y.v (negation word, then the rule's words with the key substituted; a glued
+   placeholder keeps its suffix, `w~` keeps w, `w...` and `w$` keep their source text; too few
+   key entries: IndexError on both sides).  For every well-formed pattern with a new form, every
+   negation word and every key (Proofs/PatternYReverse.v: reverse_row, trailing tilde, sub_star,
+   strip_tilde and str.format, word by word).  For patterns of PatternX it is C07X_reverse /
+   C07Y_reverse_partial below. *)
+Theorem C07Y_reverse :
   forall p prefix key, wf_ypat p = true -> plain_word prefix = true -> yproj p = None ->
     format_template_opt (make_reverse (print_ypat p) prefix) key = yref_reverse p prefix key.
+Proof. exact make_reverse_yformat. Qed.
+Print Assumptions C07Y_reverse.
+
+(* the template itself: the words of the (negated) rule, placeholders as "{}" *)
+Theorem C07Y_reverse_template :
+  forall p prefix, wf_ypat p = true -> plain_word prefix = true -> yproj p = None ->
+    let q := reverse_ypat p prefix in
+    make_reverse (print_ypat p) prefix = join_with " " (map wtmpl (ywords (y_toks q) (y_end q))).
+Proof. exact make_reverse_ytemplate. Qed.
+Print Assumptions C07Y_reverse_template.
+
+(* the WHOLE predicate evaluated on implementation outputs (matching and removal commands)
+   holds of the model, for every rule row of the second extension on which PatternX's two
+   peculiarities do not show *)
+Theorem C07Y_holds :
+  forall x, wf_C07Y x = true -> rule_has_ic (ci_rule x) = false -> qf_C07Y x = true ->
+    P_C07Y x (model_C07Y x) = true.
+Proof. exact P_C07Y_model. Qed.
+Print Assumptions C07Y_holds.
 
 Theorem C07Y_reverse_partial :
   forall xp prefix key, wf_xpat xp = true -> plain_word prefix = true ->
@@ -599,6 +621,69 @@ Proof.
   apply make_reverse_xformat; assumption.
 Qed.
 Print Assumptions C07Y_reverse_partial.
+
+(* parser after printer (the other direction is C07Y_print_parse).  The unguarded statement is
+   false (C07Y_parse_print_refuted): one text can have two well-formed trees, and the parser
+   picks the normal one -- a row of PatternX is read as PatternX reads it (`a ~` is [a; ~] of
+   PatternX, not YPat [a] ETilde), and a last word with the shape of a special last word is read
+   as that special word (a last regex word `a\$` next to a glued placeholder is taken for `w$`
+   with w = `a\`, no literal: the text is rejected, fail closed).  yparse_canon
+   (Proofs/PatternYParse.v) says exactly this, and it is the weakest possible guard:
+   C07Y_parse_print_iff.  Both trees of an ambiguous text mean the same to the matcher and to
+   the real compile_row_regexp (one text, one regexp). *)
+Theorem C07Y_parse_print :
+  forall p, wf_ypat p = true -> yparse_canon p = true -> parse_ypat (print_ypat p) = Some p.
+Proof. exact parse_ypat_print. Qed.
+Print Assumptions C07Y_parse_print.
+
+Theorem C07Y_parse_print_iff :
+  forall p, wf_ypat p = true -> (parse_ypat (print_ypat p) = Some p <-> yparse_canon p = true).
+Proof. exact parse_ypat_print_iff. Qed.
+Print Assumptions C07Y_parse_print_iff.
+
+(* a purely syntactic sufficient condition: some glued placeholder, and a special last word or a
+   last word that is a literal, `*` or a glued placeholder *)
+Theorem C07Y_parse_print_simple :
+  forall p, wf_ypat p = true -> yparse_simple p = true -> parse_ypat (print_ypat p) = Some p.
+Proof. exact parse_ypat_print_simple. Qed.
+Print Assumptions C07Y_parse_print_simple.
+
+(* patterns of PatternX need no guard (C07X_parse_print) *)
+Theorem C07Y_parse_print_embedded :
+  forall xp, wf_xpat xp = true -> parse_ypat (print_ypat (yembed xp)) = Some (yembed xp).
+Proof.
+  intros xp H. apply parse_ypat_print.
+  - unfold wf_ypat. rewrite yproj_embed. exact H.
+  - unfold yparse_canon. rewrite yproj_embed. reflexivity.
+Qed.
+Print Assumptions C07Y_parse_print_embedded.
+
+Theorem C07Y_parse_print_refuted :
+  exists p, wf_ypat p = true /\ parse_ypat (print_ypat p) <> Some p.
+Proof. exact parse_ypat_print_refuted. Qed.
+Print Assumptions C07Y_parse_print_refuted.
+
+(* non-vacuity of C07Y_reverse / C07Y_parse_print / C07Y_parse_print_simple / C07Y_holds: a glued
+   placeholder and a special last word; and the two witnesses of the refutation *)
+Example C07Y_ex_guards :
+  let rg := SGrp true (SAlt (SCat (SChr "i") (SChr "p"))
+                            (SCat (SChr "i") (SCat (SChr "p") (SCat (SChr "v") (SChr "6"))))) in
+  let p := YPat [YX (XLit "ip"); YGlue rg "-prefix"; YX XStar] (ELitTilde "name:") in
+  wf_ypat p = true /\ yproj p = None /\ yparse_canon p = true /\ yparse_simple p = true
+  /\ print_ypat p = "ip */(ip|ipv6)/-prefix * name:~"
+  /\ parse_ypat "ip */(ip|ipv6)/-prefix * name:~" = Some p
+  /\ make_reverse (print_ypat p) "undo" = "undo ip {}-prefix {} name:{}"
+  /\ yref_reverse p "undo" ["ipv6"; "P"; " x y"] = Some "undo ip ipv6-prefix P name: x y"
+  /\ yref_reverse p "undo" ["ipv6"; "P"] = None
+  /\ (let x := C07In "ip */(ip|ipv6)/-prefix * name:~" "undo" false ["K"; "L"; "M"]
+                     ["ip ipv6-prefix P name: x y"; "ip ip-prefix P name:"; "ip ipv4-prefix P name:q"] in
+      wf_C07Y x = true /\ rule_has_ic (ci_rule x) = false /\ qf_C07Y x = true)
+  /\ parse_ypat (print_ypat (YPat [YX (XLit "a")] ETilde)) = Some (yembed [XLit "a"; XTilde])
+  /\ yparse_canon (YPat [YX (XLit "a")] ETilde) = false
+  /\ (let p2 := YPat [YGlue (SChr "a") "x"; YX (XLitRe (SCat (SChr "a") (SEsc "$")))] EPlain in
+      wf_ypat p2 = true /\ print_ypat p2 = "*/a/x a\$" /\ parse_ypat (print_ypat p2) = None
+      /\ yparse_canon p2 = false).
+Proof. vm_compute. repeat split. Qed.
 
 (* non-vacuity *)
 Example C07Y_ex_parse :
